@@ -549,32 +549,50 @@ def check(F, run, tier):
     eng.analyze(fn, frozenset())
     mc = [nd for nd in fn.nodes if nd["k"] in CALLS and nd.get("fname") == "memcpy"]
     rs = [nd for nd in fn.nodes if nd["k"] == "CXXMemberCallExpr" and nd.get("fname") == "resize"]
-    if len(mc) != 1 or len(rs) != 1:
+    ins = [nd for nd in fn.nodes if nd["k"] == "CXXMemberCallExpr" and nd.get("fname") == "insert" and "obj" in nd
+           and fn.term(nd["obj"]) == ("mem", ("this",), "streamBuffer")]
+    if not mc and not rs and len(ins) == 1 and len(ins[0].get("args", [])) == 3:
+        # `streamBuffer.insert(streamBuffer.end(), p, p + n)` with p the caller's buffer: the same append in one call
+        a0, a1, a2 = fn.term(ins[0]["args"][0]), fn.xterm(ins[0]["args"][1]), fn.xterm(ins[0]["args"][2])
+        while a0[0] == "ctor" and len(a0[2]) == 1:
+            a0 = a0[2][0]
+        p0, p1 = ("var", fn.params[0]["n"], fn.params[0]["d"]), ("var", fn.params[1]["n"], fn.params[1]["d"])
+        good = a0[0] == "call" and a0[1].split("::")[-1] in ("end", "cend") and a0[2] == ("mem", ("this",), "streamBuffer") \
+            and a1 == p0 and a2 == ("op", "+", p0, p1)
+        req_ = "append: exactly the n bytes of the caller's buffer are added after the old content"
+        if good:
+            run.add(ok("R-SEQ", DW + "::WriteImplementation#append", fn.loc(ins[0]["id"]), fn.qn, req_, "insert(end(), buffer, buffer + n)"))
+        else:
+            run.add(bad("R-SEQ", DW + "::WriteImplementation#append", fn.loc(ins[0]["id"]), fn.qn, req_,
+                        "insert(%s, %s, %s)" % (fmt_term(a0), fmt_term(a1), fmt_term(a2))))
+        mc = None
+    elif len(mc) != 1 or len(rs) != 1:
         raise AnalysisBroken("DynamicMemoryWriter::WriteImplementation shape not recognised")
-    site = final_site_facts(eng, fn, mc[0]["id"]) or set()
-    defs = definitions(site)
-    sb = ("mem", ("this",), "streamBuffer")
-    dst = fn.term(mc[0]["args"][0])
-    ln = fn.term(mc[0]["args"][2])
-    newsize = fn.term(rs[0]["args"][0])
-    if newsize[0] == "var" and dst[0] == "op":
-        # a named new size: its (only) definition, keeping the old-size local as it is
-        from .c05 import alias_defs, resolve
-        newsize = resolve(newsize, {k: v for k, v in alias_defs(fn).items() if k != dst[3]})
-    good = dst[0] == "op" and dst[1] == "+" and dst[2][0] == "call" and dst[2][1].endswith("::data") and dst[2][2] == sb \
-        and newsize == ("op", "+", dst[3], ln) and rs[0]["id"] < mc[0]["id"]
-    oldsz_is_size = False
-    for nd in fn.nodes:
-        if nd["k"] == "DeclStmt":
-            for d in nd.get("decls", []):
-                if dst[0] == "op" and ("var", d.get("n"), d.get("d")) == dst[3] and "init" in d and fn.term(d["init"]) == ("size", sb):
-                    oldsz_is_size = True
-    if good and oldsz_is_size:
-        run.add(ok("R-SEQ", DW + "::WriteImplementation#append", fn.loc(mc[0]["id"]), fn.qn,
-                   "append: resize(old + n) then copy n bytes to data() + old", "%s ; memcpy(%s, …, %s)" % (fmt_term(newsize), fmt_term(dst), fmt_term(ln))))
-    else:
-        run.add(bad("R-SEQ", DW + "::WriteImplementation#append", fn.loc(mc[0]["id"]), fn.qn,
-                    "append: resize(old + n) then copy n bytes to data() + old", "resize(%s); memcpy(%s, …, %s)" % (fmt_term(newsize), fmt_term(dst), fmt_term(ln))))
+    if mc is not None:
+        site = final_site_facts(eng, fn, mc[0]["id"]) or set()
+        defs = definitions(site)
+        sb = ("mem", ("this",), "streamBuffer")
+        dst = fn.term(mc[0]["args"][0])
+        ln = fn.term(mc[0]["args"][2])
+        newsize = fn.term(rs[0]["args"][0])
+        if newsize[0] == "var" and dst[0] == "op":
+            # a named new size: its (only) definition, keeping the old-size local as it is
+            from .c05 import alias_defs, resolve
+            newsize = resolve(newsize, {k: v for k, v in alias_defs(fn).items() if k != dst[3]})
+        good = dst[0] == "op" and dst[1] == "+" and dst[2][0] == "call" and dst[2][1].endswith("::data") and dst[2][2] == sb \
+            and newsize == ("op", "+", dst[3], ln) and rs[0]["id"] < mc[0]["id"]
+        oldsz_is_size = False
+        for nd in fn.nodes:
+            if nd["k"] == "DeclStmt":
+                for d in nd.get("decls", []):
+                    if dst[0] == "op" and ("var", d.get("n"), d.get("d")) == dst[3] and "init" in d and fn.term(d["init"]) == ("size", sb):
+                        oldsz_is_size = True
+        if good and oldsz_is_size:
+            run.add(ok("R-SEQ", DW + "::WriteImplementation#append", fn.loc(mc[0]["id"]), fn.qn,
+                       "append: resize(old + n) then copy n bytes to data() + old", "%s ; memcpy(%s, …, %s)" % (fmt_term(newsize), fmt_term(dst), fmt_term(ln))))
+        else:
+            run.add(bad("R-SEQ", DW + "::WriteImplementation#append", fn.loc(mc[0]["id"]), fn.qn,
+                        "append: resize(old + n) then copy n bytes to data() + old", "resize(%s); memcpy(%s, …, %s)" % (fmt_term(newsize), fmt_term(dst), fmt_term(ln))))
 
     # the typed string read is the inverse of the typed string write: both move size() * sizeof(character) bytes
     from . import c12 as _c12
